@@ -2,10 +2,12 @@
 package props
 
 import (
+	"crypto/x509"
 	"encoding/json"
 	"fmt"
 	mrand "math/rand"
 	"sort"
+	"time"
 
 	"verifharness/mon"
 	"verifharness/ref"
@@ -109,3 +111,10 @@ func honestShape(r *mrand.Rand) world.QuoteShape {
 }
 
 var levels = []int{world.LBase, world.LColl, world.LCrl}
+
+// verifyTime is a unix-seconds instant (JSON-friendly).
+type verifyTime int64
+
+func (v verifyTime) T() time.Time { return time.Unix(int64(v), 0).UTC() }
+
+type x509Cert = x509.Certificate
